@@ -1578,3 +1578,441 @@ Proof.
   - intros H e He. apply filter_In in He. destruct He as [He Hn]. apply allowed_iff. apply H; [exact He|].
     apply negb_true_iff. exact Hn.
 Qed.
+
+(* ================================================================== the shape clause under the repaired id rule *)
+Lemma verts_touch l x : In x (verts l) <-> exists e, In e l /\ touches x e = true.
+Proof.
+  unfold verts. rewrite dedup_In, in_flat_map. split.
+  - intros [e [He Hx]]. exists e. split; [exact He|]. apply touches_iff. cbn in Hx. destruct Hx as [H|[H|[]]]; auto.
+  - intros [e [He Hx]]. exists e. split; [exact He|]. apply touches_iff in Hx. cbn. tauto.
+Qed.
+
+Lemma motif_edges_In es m e : In e (motif_edges es m) <-> In e es /\ em e = m.
+Proof. unfold motif_edges. rewrite filter_In, Z.eqb_eq. tauto. Qed.
+
+Lemma touches_false u e : touches u e = false <-> ea e <> u /\ eb e <> u.
+Proof. unfold touches. rewrite orb_false_iff, !Z.eqb_neq. tauto. Qed.
+
+Section Side.
+  Context (N : Z) (es es' : list edge) (f g mf : Z) (af : list edge).
+  Hypothesis HW : WF N es.
+  Hypothesis H1 : forall e, In e es -> em e = mf -> touches f e = true -> In e af.
+  Hypothesis H2 : forall e, In e af -> In e es /\ touches f e = true /\ em e = mf.
+  Hypothesis H3 : forall e, In e es -> touches g e = true -> em e <> mf.
+  Hypothesis H4 : forall e, (In e es' /\ em e = mf) <->
+      ((In e es /\ em e = mf /\ touches f e = false) \/ (exists e0, In e0 af /\ e = mk_edge g (other f e0) (et e0) mf)).
+
+  Definition rho_side (x : Z) : Z := if x =? f then g else x.
+
+  Lemma rename_untouched e : In e es -> touches f e = false -> rename_item rho_side e = item_of e.
+  Proof.
+    intros He Ht. apply touches_false in Ht. destruct Ht as [A B]. unfold rename_item, rho_side, item_of.
+    destruct (Z.eqb_spec (ea e) f); [contradiction|]. destruct (Z.eqb_spec (eb e) f); [contradiction|].
+    destruct HW as [Hr _]. apply Hr in He. unfold norm. destruct (Z.leb_spec (ea e) (eb e)); [reflexivity|lia].
+  Qed.
+
+  Lemma rename_touched e : In e es -> touches f e = true ->
+    rename_item rho_side e = item_of (mk_edge g (other f e) (et e) mf).
+  Proof.
+    intros He Ht. destruct (key_other N es f e HW He Ht) as [_ Hne]. apply touches_iff in Ht.
+    destruct HW as [Hr _]. pose proof (Hr e He) as R.
+    unfold rename_item, rho_side, item_of, mk_edge, other. cbn [ea eb et].
+    unfold other in Hne. destruct (Z.eqb_spec (ea e) f) as [E|E].
+    - destruct (Z.eqb_spec (eb e) f) as [E2|E2]; [lia|]. reflexivity.
+    - destruct Ht as [Ht|Ht]; [contradiction|]. destruct (Z.eqb_spec (eb e) f) as [E2|E2]; [|contradiction].
+      rewrite (norm_sym (ea e) g). reflexivity.
+  Qed.
+
+  Theorem shape_side : exists rho, inj_on rho (verts (motif_edges es mf)) /\
+    forall it, In it (map item_of (motif_edges es' mf)) <-> In it (map (rename_item rho) (motif_edges es mf)).
+  Proof.
+    exists rho_side. split.
+    - intros x y Hx Hy E. apply verts_touch in Hx, Hy. destruct Hx as [ex [Hex Tx]], Hy as [ey [Hey Ty]].
+      apply motif_edges_In in Hex, Hey. unfold rho_side in E.
+      destruct (Z.eqb_spec x f) as [->|Nx]; destruct (Z.eqb_spec y f) as [->|Ny]; auto.
+      + exfalso. subst y. apply (H3 ey); tauto.
+      + exfalso. subst x. apply (H3 ex); tauto.
+    - intros it. rewrite !in_map_iff. split.
+      + intros [e [<- He]]. apply motif_edges_In in He. apply H4 in He. destruct He as [[He [Em Ht]]|[e0 [He0 ->]]].
+        * exists e. split; [apply rename_untouched; assumption|apply motif_edges_In; auto].
+        * destruct (H2 e0 He0) as [A [B C]]. exists e0. split; [apply rename_touched; assumption|apply motif_edges_In; auto].
+      + intros [e [<- He]]. apply motif_edges_In in He. destruct He as [He Em].
+        destruct (touches f e) eqn:Ht.
+        * exists (mk_edge g (other f e) (et e) mf). split; [symmetry; apply rename_touched; assumption|].
+          apply motif_edges_In. apply H4. right. exists e. split; [apply H1; assumption|reflexivity].
+        * exists e. split; [symmetry; apply rename_untouched; assumption|]. apply motif_edges_In. apply H4. left. auto.
+  Qed.
+End Side.
+
+Section ShapeStep.
+  Context (N : Z) (es : list edge) (u0 v0 m0 m1 : Z) (a0 a1 : list edge) (prs : list (edge * edge)).
+  Hypothesis HW : WF N es.
+  Hypothesis G0 : Permutation a0 (corner_edges es u0 m0).
+  Hypothesis G1 : Permutation a1 (corner_edges es v0 m1).
+  Hypothesis SF : SuitFacts es u0 v0 m0 m1 a0 a1.
+  Hypothesis Hf : map fst prs = a0.
+  Hypothesis Hs : Permutation a1 (map snd prs).
+
+  Let es' := swap_es' es u0 v0 m0 m1 true prs.
+
+  Lemma in_es' e : In e es' <-> (In e es /\ is_oldb u0 v0 m0 m1 e = false) \/ In e (swap_props u0 v0 true prs).
+  Proof.
+    unfold es', swap_es', swap_rest. rewrite in_app_iff, filter_In, negb_true_iff. tauto.
+  Qed.
+
+  Lemma in_props p : In p (swap_props u0 v0 true prs) <->
+    exists q, In q prs /\ (p = mk_edge u0 (other v0 (snd q)) (et (snd q)) (em (snd q)) \/
+                           p = mk_edge v0 (other u0 (fst q)) (et (fst q)) (em (fst q))).
+  Proof.
+    unfold swap_props. rewrite in_flat_map. split; intros [q [Hq Hp]]; exists q; (split; [exact Hq|]).
+    - unfold pp in Hp. cbn in Hp. destruct Hp as [<-|[<-|[]]]; auto.
+    - unfold pp. cbn. destruct Hp as [->| ->]; auto.
+  Qed.
+
+  Lemma a0_in e : In e a0 <-> In e es /\ touches u0 e = true /\ em e = m0.
+  Proof. rewrite <- corner_edges_In. split; apply Permutation_in; [|apply Permutation_sym]; exact G0. Qed.
+  Lemma a1_in e : In e a1 <-> In e es /\ touches v0 e = true /\ em e = m1.
+  Proof. rewrite <- corner_edges_In. split; apply Permutation_in; [|apply Permutation_sym]; exact G1. Qed.
+
+  Lemma fst_in e0 : In e0 a0 <-> exists q, In q prs /\ fst q = e0.
+  Proof. rewrite <- Hf, in_map_iff. split; intros [q H]; exists q; tauto. Qed.
+  Lemma snd_in e1 : In e1 a1 <-> exists q, In q prs /\ snd q = e1.
+  Proof.
+    split.
+    - intros H. apply (Permutation_in _ Hs) in H. apply in_map_iff in H. destruct H as [q H]; exists q; tauto.
+    - intros [q [Hq <-]]. apply (Permutation_in _ (Permutation_sym Hs)). apply in_map. exact Hq.
+  Qed.
+
+  Lemma oldb_false_iff e : In e es ->
+    (is_oldb u0 v0 m0 m1 e = false <-> ~ In e a0 /\ ~ In e a1).
+  Proof.
+    intros He. rewrite a0_in, a1_in. unfold is_oldb. rewrite orb_false_iff, !andb_false_iff, !Z.eqb_neq.
+    split.
+    - intros [[A|A] [B|B]]; split; intros [_ [X Y]]; congruence.
+    - intros [A B]. split.
+      + destruct (touches u0 e) eqn:T; [right|left; reflexivity]. intros E. apply A. auto.
+      + destruct (touches v0 e) eqn:T; [right|left; reflexivity]. intros E. apply B. auto.
+  Qed.
+
+  Theorem shape_step : Shape es es'.
+  Proof.
+    pose proof (sf_ids _ _ _ _ _ _ _ SF) as Hids.
+    intros m. destruct (Z.eq_dec m m0) as [->|Nm0]; [|destruct (Z.eq_dec m m1) as [->|Nm1]].
+    - (* the motif of u0: u0 is replaced by v0 *)
+      apply (shape_side N es es' u0 v0 m0 a0 HW).
+      + intros e He Em Ht. apply a0_in. auto.
+      + intros e He. apply a0_in. exact He.
+      + intros e He Ht. apply (sf_v0 _ _ _ _ _ _ _ SF e He Ht).
+      + intros e. rewrite in_es'. split.
+        * intros [[[He Ho]|Hp] Em].
+          -- left. split; [exact He|]. split; [exact Em|]. apply (oldb_false_iff e He) in Ho. destruct Ho as [A _].
+             destruct (touches u0 e) eqn:T; [|reflexivity]. exfalso. apply A. apply a0_in. auto.
+          -- right. apply in_props in Hp. destruct Hp as [q [Hq [E|E]]].
+             ++ exfalso. subst e. cbn in Em. assert (In (snd q) a1) by (apply snd_in; eauto).
+                apply a1_in in H. destruct H as [_ [_ X]]. congruence.
+             ++ exists (fst q). assert (X : In (fst q) a0) by (apply fst_in; eauto). split; [exact X|].
+                apply a0_in in X. destruct X as [_ [_ X]]. rewrite E, X. reflexivity.
+        * intros [[He [Em Ht]]|[e0 [He0 ->]]].
+          -- split; [|exact Em]. left. split; [exact He|]. apply (oldb_false_iff e He). split.
+             ++ intros X. apply a0_in in X. destruct X as [_ [X _]]. congruence.
+             ++ intros X. apply a1_in in X. destruct X as [_ [_ X]]. congruence.
+          -- split; [|reflexivity]. right. apply in_props. apply fst_in in He0. destruct He0 as [q [Hq <-]].
+             exists q. split; [exact Hq|]. right. assert (X : In (fst q) a0) by (apply fst_in; eauto).
+             apply a0_in in X. destruct X as [_ [_ X]]. rewrite X. reflexivity.
+    - (* the motif of v0: v0 is replaced by u0 *)
+      apply (shape_side N es es' v0 u0 m1 a1 HW).
+      + intros e He Em Ht. apply a1_in. auto.
+      + intros e He. apply a1_in. exact He.
+      + intros e He Ht. apply (sf_u0 _ _ _ _ _ _ _ SF e He Ht).
+      + intros e. rewrite in_es'. split.
+        * intros [[[He Ho]|Hp] Em].
+          -- left. split; [exact He|]. split; [exact Em|]. apply (oldb_false_iff e He) in Ho. destruct Ho as [_ A].
+             destruct (touches v0 e) eqn:T; [|reflexivity]. exfalso. apply A. apply a1_in. auto.
+          -- right. apply in_props in Hp. destruct Hp as [q [Hq [E|E]]].
+             ++ exists (snd q). assert (X : In (snd q) a1) by (apply snd_in; eauto). split; [exact X|].
+                apply a1_in in X. destruct X as [_ [_ X]]. rewrite E, X. reflexivity.
+             ++ exfalso. subst e. cbn in Em. assert (In (fst q) a0) by (apply fst_in; eauto).
+                apply a0_in in H. destruct H as [_ [_ X]]. congruence.
+        * intros [[He [Em Ht]]|[e1 [He1 ->]]].
+          -- split; [|exact Em]. left. split; [exact He|]. apply (oldb_false_iff e He). split.
+             ++ intros X. apply a0_in in X. destruct X as [_ [_ X]]. congruence.
+             ++ intros X. apply a1_in in X. destruct X as [_ [X _]]. congruence.
+          -- split; [|reflexivity]. right. apply in_props. apply snd_in in He1. destruct He1 as [q [Hq <-]].
+             exists q. split; [exact Hq|]. left. assert (X : In (snd q) a1) by (apply snd_in; eauto).
+             apply a1_in in X. destruct X as [_ [_ X]]. rewrite X. reflexivity.
+    - (* every other label class is untouched *)
+      exists (fun x => x). split; [intros x y _ _ E; exact E|].
+      assert (Hsame : forall e, In e (motif_edges es' m) <-> In e (motif_edges es m)).
+      { intros e. rewrite !motif_edges_In, in_es'. split.
+        - intros [[[He _]|Hp] Em]; [auto|]. exfalso. apply in_props in Hp. destruct Hp as [q [Hq [E|E]]]; subst e; cbn in Em.
+          + assert (X : In (snd q) a1) by (apply snd_in; eauto). apply a1_in in X. destruct X as [_ [_ X]]. congruence.
+          + assert (X : In (fst q) a0) by (apply fst_in; eauto). apply a0_in in X. destruct X as [_ [_ X]]. congruence.
+        - intros [He Em]. split; [|exact Em]. left. split; [exact He|]. apply (oldb_false_iff e He). split.
+          + intros X. apply a0_in in X. destruct X as [_ [_ X]]. congruence.
+          + intros X. apply a1_in in X. destruct X as [_ [_ X]]. congruence. }
+      intros it. rewrite !in_map_iff. split.
+      + intros [e [<- He]]. apply Hsame in He. exists e. split; [|exact He].
+        apply motif_edges_In in He. destruct He as [He _]. destruct HW as [Hr _]. apply Hr in He.
+        unfold rename_item, item_of, norm. destruct (Z.leb_spec (ea e) (eb e)); [reflexivity|lia].
+      + intros [e [<- He]]. exists e. split; [|apply Hsame; exact He].
+        apply motif_edges_In in He. destruct He as [He _]. destruct HW as [Hr _]. apply Hr in He.
+        unfold rename_item, item_of, norm. destruct (Z.leb_spec (ea e) (eb e)); [reflexivity|lia].
+  Qed.
+End ShapeStep.
+
+(* ------------------------------------------------------------------ Shape composes *)
+Lemma rename_compose rho1 rho2 e e0 :
+  item_of e = rename_item rho1 e0 -> rename_item rho2 e = rename_item (fun x => rho2 (rho1 x)) e0.
+Proof.
+  unfold item_of, rename_item. intros [= Ea Eb Et]. rewrite Ea, Eb, Et.
+  destruct (norm_cases (rho1 (ea e0)) (rho1 (eb e0))) as [-> | ->]; cbn [fst snd]; [reflexivity|].
+  rewrite (norm_sym (rho2 (rho1 (eb e0)))). reflexivity.
+Qed.
+
+Lemma Shape_refl es N : WF N es -> Shape es es.
+Proof.
+  intros [Hr _] m. exists (fun x => x). split; [intros x y _ _ E; exact E|].
+  intros it. rewrite !in_map_iff. split; intros [e [<- He]]; exists e; (split; [|exact He]);
+    apply motif_edges_In in He; destruct He as [He _]; apply Hr in He;
+    unfold rename_item, item_of, norm; destruct (Z.leb_spec (ea e) (eb e)); try reflexivity; lia.
+Qed.
+
+Lemma Shape_trans es0 es es' : Shape es0 es -> Shape es es' -> Shape es0 es'.
+Proof.
+  intros S1 S2 m. destruct (S1 m) as [rho1 [I1 E1]]. destruct (S2 m) as [rho2 [I2 E2]].
+  exists (fun x => rho2 (rho1 x)). split.
+  - assert (Himg : forall x, In x (verts (motif_edges es0 m)) -> In (rho1 x) (verts (motif_edges es m))).
+    { intros x Hx. apply verts_touch in Hx. destruct Hx as [e0 [He0 Tx]].
+      assert (Hit : In (rename_item rho1 e0) (map item_of (motif_edges es m))) by (apply E1; apply in_map; exact He0).
+      apply in_map_iff in Hit. destruct Hit as [e [Ee He]]. apply verts_touch. exists e. split; [exact He|].
+      apply touches_iff. apply touches_iff in Tx. unfold item_of, rename_item in Ee. injection Ee as Ea Eb _.
+      destruct (norm_cases (rho1 (ea e0)) (rho1 (eb e0))) as [X|X]; rewrite X in Ea, Eb; cbn in Ea, Eb;
+        destruct Tx as [<-|<-]; auto. }
+    intros x y Hx Hy E. apply I1; [exact Hx|exact Hy|]. apply I2; [apply Himg; exact Hx|apply Himg; exact Hy|exact E].
+  - intros it. rewrite E2. rewrite !in_map_iff. split.
+    + intros [e [<- He]]. assert (Hit : In (item_of e) (map item_of (motif_edges es m))) by (apply in_map; exact He).
+      apply E1 in Hit. apply in_map_iff in Hit. destruct Hit as [e0 [Ee He0]]. exists e0. split; [|exact He0].
+      symmetry. apply rename_compose. symmetry. exact Ee.
+    + intros [e0 [<- He0]]. assert (Hit : In (rename_item rho1 e0) (map item_of (motif_edges es m))) by (apply E1; apply in_map; exact He0).
+      apply in_map_iff in Hit. destruct Hit as [e [Ee He]]. exists e. split; [|exact He]. apply rename_compose. exact Ee.
+Qed.
+
+(* ------------------------------------------------------------------ the run under the repaired id rule *)
+Lemma step_cases C es0 ph s e :
+  c_nE C = length es0 -> StInv C es0 s -> PhInv C s ph ->
+  let s' := fst (next_state (step C ph s e)) in
+  s_es s' = s_es s \/
+  exists u0 v0 m0 m1 a0 a1 prs,
+    Permutation a0 (corner_edges (s_es s) u0 m0) /\ Permutation a1 (corner_edges (s_es s) v0 m1) /\
+    SuitFacts (s_es s) u0 v0 m0 m1 a0 a1 /\ map fst prs = a0 /\ Permutation a1 (map snd prs) /\
+    s_es s' = swap_es' (s_es s) u0 v0 m0 m1 (c_fixed C) prs.
+Proof.
+  intros HnE HS HP. pose proof HS as [HH HM]. pose proof HH as [_ [HW [Hlen _]]].
+  destruct ph as [|e0|e0 c0 sc|e0 c0 sc e1|u0 v0 c0 c1 props top bot]; destruct e as [i|c|r]; cbn [step];
+    try (left; reflexivity).
+  - destruct (draw_edge C s i); left; reflexivity.
+  - destruct (permb c _); [|left; reflexivity].
+    left. destruct (enter_inner_state C s e0 c 0) as [-> _]. reflexivity.
+  - destruct (draw_edge C s i) as [e1|]; [|left; reflexivity].
+    destruct (Nat.eqb (et e1) (et e0)); left; reflexivity.
+  - destruct (permb c _); [|left; reflexivity].
+    destruct (attrs (s_es s) (ea e0) c0) as [a0|]; [|left; reflexivity].
+    destruct (attrs (s_es s) (ea e1) c) as [a1|]; [|left; reflexivity].
+    destruct (suitable (s_es s) (ea e0) (ea e1) a0 a1).
+    + destruct (Nat.leb (c_slimit C) sc).
+      { left. destruct (enter_outer_state C s false) as [-> _]. reflexivity. }
+      destruct (swap_pre (c_fixed C) (c_nodes C) (c_target C) (ea e0) (ea e1) a0 a1) as [|cc|props top bot].
+      * left. destruct (enter_outer_state C s false) as [-> _]. reflexivity.
+      * left. reflexivity.
+      * left. reflexivity.
+    + left. destruct (enter_inner_state C s e0 c0 (S sc)) as [-> _]. reflexivity.
+  - destruct HP as [m0 [m1 [a0 [a1 [prs [G0 [G1 [Hc0 [Hc1 [SF [Hf [Hs [Ht Hprops]]]]]]]]]]]]].
+    destruct (accepts top bot r).
+    2:{ left. destruct (enter_outer_state C s false) as [-> _]. reflexivity. }
+    destruct (apply_swap_ok (c_M C) (s_es s) u0 v0 m0 m1 a0 a1 (c_fixed C) prs (s_ds s) HW G0 G1 SF Hf Hs Ht HM)
+      as [d' [Hap HM']].
+    rewrite HnE, <- Hlen, Hc0, Hc1, Hprops, Hap. right.
+    destruct (enter_outer_state C (mkS (swap_es' (s_es s) u0 v0 m0 m1 (c_fixed C) prs) d' (S (s_cc s))) true) as [-> _].
+    exists u0, v0, m0, m1, a0, a1, prs. cbn [fst s_es].
+    split; [exact G0|]. split; [exact G1|]. split; [exact SF|]. split; [exact Hf|]. split; [exact Hs|reflexivity].
+Qed.
+
+Theorem run_shape C es0 : c_fixed C = true -> c_nE C = length es0 -> forall evs ph s,
+  StInv C es0 s -> PhInv C s ph -> Shape es0 (s_es s) ->
+  let '(r, sf, tr) := run C evs ph s in Shape es0 (s_es sf) /\ Forall (fun x => Shape es0 (s_es x)) tr.
+Proof.
+  intros Hfx HnE. induction evs as [|e evs IH]; intros ph s HS HP HSh; cbn [run].
+  - split; [exact HSh|constructor].
+  - pose proof (step_inv C es0 ph s e HnE HS HP) as Hn.
+    pose proof (step_cases C es0 ph s e HnE HS HP) as Hc.
+    assert (HSh' : Shape es0 (s_es (fst (next_state (step C ph s e))))).
+    { destruct Hc as [-> | [u0 [v0 [m0 [m1 [a0 [a1 [prs [G0 [G1 [SF [Hf [Hs ->]]]]]]]]]]]]]; [exact HSh|].
+      eapply Shape_trans; [exact HSh|]. rewrite Hfx. destruct HS as [[_ [HW _]] _].
+      eapply shape_step; eauto. }
+    destruct (step C ph s e) as [ph' s' acc|r s' acc]; cbn in Hn, HSh'.
+    + destruct Hn as [HS' HP']. specialize (IH ph' s' HS' HP' HSh').
+      destruct (run C evs ph' s') as [[r sf] tr]. destruct IH as [I1 I2]. split; [exact I1|].
+      destruct acc; [constructor; assumption|exact I2].
+    + split; [exact HSh'|]. destruct acc; [constructor; [exact HSh'|constructor]|constructor].
+Qed.
+
+Theorem rewire_shape_fixed nodes tg es0 sl cl evs :
+  WF (Z.of_nat (length nodes)) es0 ->
+  let C := mk_cfg true nodes tg es0 sl cl in
+  let '(r, sf, tr) := rewire C es0 evs in
+  Forall (fun s => Hard nodes es0 nodes (s_es s) /\ Shape es0 (s_es s)) (sf :: tr).
+Proof.
+  intros HW C. pose proof (rewire_inv true nodes tg es0 sl cl evs HW) as HI. fold C in HI.
+  unfold rewire in *.
+  assert (HS0 : StInv C es0 (mkS es0 (init_ds (c_M C) es0) 0)).
+  { split; [apply Hard_refl; exact HW|apply init_ds_mirror]. }
+  pose proof (enter_outer_inv C es0 _ false HS0) as Hn.
+  destruct (enter_outer_state C (mkS es0 (init_ds (c_M C) es0) 0) false) as [Hst _].
+  destruct (enter_outer C _ false) as [ph s acc|r s acc]; cbn in Hn, Hst.
+  - destruct Hn as [HS HP]. injection Hst as -> ->.
+    pose proof (run_shape C es0 eq_refl eq_refl evs ph _ HS HP (Shape_refl es0 _ HW)) as HR.
+    destruct (run C evs ph _) as [[r sf] tr]. destruct HI as [I1 I2]. destruct HR as [R1 R2].
+    constructor; [split; [apply I1|exact R1]|].
+    rewrite Forall_forall in *. intros x Hx. split; [apply (I2 x Hx)|apply (R2 x Hx)].
+  - injection Hst as -> _. constructor; [|constructor]. split; [apply HS0|]. cbn. eapply Shape_refl; eauto.
+Qed.
+
+(* the remaining part of the file works in Q_scope *)
+Local Open Scope Q_scope.
+
+(* ================================================================== C12: the Metropolis ratio *)
+(* the target is symmetric on the pairings of the network's vertices *)
+Definition SymT (nodes : list (list Z)) (tg : target) : Prop :=
+  forall t a b ka kb, exk nodes t a = Some ka -> exk nodes t b = Some kb ->
+    tlookup tg t (ka ++ kb) = tlookup tg t (kb ++ ka).
+
+Lemma prodw_cons nodes tg e l : prodw nodes tg (e :: l) = wq nodes tg e * prodw nodes tg l.
+Proof. reflexivity. Qed.
+
+Lemma prodw_app nodes tg l1 l2 : prodw nodes tg (l1 ++ l2) == prodw nodes tg l1 * prodw nodes tg l2.
+Proof.
+  induction l1 as [|e l IH]; cbn [app].
+  - unfold prodw at 2. cbn. ring.
+  - rewrite !prodw_cons, IH. ring.
+Qed.
+
+Lemma prodw_perm nodes tg l1 l2 : Permutation l1 l2 -> prodw nodes tg l1 == prodw nodes tg l2.
+Proof.
+  induction 1 as [|x l l' H IH|x y l|l l' l'' H1 IH1 H2 IH2].
+  - reflexivity.
+  - rewrite !prodw_cons, IH. reflexivity.
+  - rewrite !prodw_cons. ring.
+  - rewrite IH1. exact IH2.
+Qed.
+
+Lemma wq_mk nodes tg a b t m ka kb x :
+  SymT nodes tg -> exk nodes t a = Some ka -> exk nodes t b = Some kb -> tlookup tg t (ka ++ kb) = Some x ->
+  wq nodes tg (mk_edge a b t m) = x.
+Proof.
+  intros HS Ha Hb Hx. unfold wq, weight, mk_edge. cbn [ea eb et].
+  destruct (norm_cases a b) as [-> | ->]; cbn [fst snd]; rewrite Ha, Hb.
+  - rewrite Hx. reflexivity.
+  - rewrite (HS t b a kb ka Hb Ha), Hx. reflexivity.
+Qed.
+
+Lemma wq_touch nodes tg u e ku ko x :
+  SymT nodes tg -> touches u e = true -> exk nodes (et e) u = Some ku -> exk nodes (et e) (other u e) = Some ko ->
+  tlookup tg (et e) (ku ++ ko) = Some x -> wq nodes tg e = x.
+Proof.
+  intros HS Ht Hu Ho Hx. unfold wq, weight. apply touches_iff in Ht. unfold other in Ho.
+  destruct (Z.eqb_spec (ea e) u) as [E|E].
+  - rewrite E, Hu, Ho, Hx. reflexivity.
+  - destruct Ht as [Ht|Ht]; [contradiction|]. rewrite Ht, Ho, Hu.
+    rewrite (HS (et e) (ea e) u ko ku Ho Hu), Hx. reflexivity.
+Qed.
+
+Lemma num_loop_ratio fixed nodes tg u0 v0 all1 : SymT nodes tg -> forall a0 rem props top props' top',
+  num_loop fixed nodes tg u0 v0 all1 a0 rem props top = NumOk props' top' ->
+  exists new, props' = props ++ new /\ top' == top * prodw nodes tg new.
+Proof.
+  intros HS. induction a0 as [|e0 a0 IH]; intros rem props top props' top' H; cbn in H.
+  - injection H as <- <-. exists []. rewrite app_nil_r. split; [reflexivity|]. unfold prodw. cbn. ring.
+  - destruct (pop_topo (et e0) rem) as [[e1 rem1]|] eqn:P; [|discriminate].
+    destruct (pop_topo_spec _ _ _ _ P) as [Et _].
+    destruct (exk nodes (et e0) u0) as [ku0|] eqn:X1; [|discriminate].
+    destruct (exk nodes (et e0) (other u0 e0)) as [ku1|] eqn:X2; [|discriminate].
+    destruct (exk nodes (et e0) v0) as [kv0|] eqn:X3; [|discriminate].
+    destruct (exk nodes (et e0) (other v0 e1)) as [kv1|] eqn:X4; [|discriminate].
+    match type of H with (if ?c then _ else _) = _ => destruct c; [discriminate|] end.
+    destruct (tlookup tg (et e0) (ku0 ++ kv1)) as [x|] eqn:L1; [|discriminate].
+    destruct (tlookup tg (et e0) (kv0 ++ ku1)) as [y|] eqn:L2; [|discriminate].
+    destruct (Qeq_bool (top * (x * y)) (0 # 1)); [discriminate|].
+    apply IH in H. destruct H as [new [Hp Ht]].
+    set (two := if fixed
+                then [mk_edge u0 (other v0 e1) (et e1) (em e1); mk_edge v0 (other u0 e0) (et e0) (em e0)]
+                else [mk_edge u0 (other v0 e1) (et e0) (em e0); mk_edge v0 (other u0 e0) (et e1) (em e1)]) in *.
+    exists (two ++ new). split; [rewrite Hp, <- app_assoc; reflexivity|].
+    rewrite Ht, prodw_app.
+    assert (Htwo : prodw nodes tg two == x * y).
+    { unfold two. destruct fixed; rewrite !prodw_cons; unfold prodw; cbn [fold_right].
+      - rewrite Et. rewrite (wq_mk nodes tg u0 (other v0 e1) (et e0) (em e1) ku0 kv1 x HS X1 X4 L1).
+        rewrite (wq_mk nodes tg v0 (other u0 e0) (et e0) (em e0) kv0 ku1 y HS X3 X2 L2). ring.
+      - rewrite Et. rewrite (wq_mk nodes tg u0 (other v0 e1) (et e0) (em e0) ku0 kv1 x HS X1 X4 L1).
+        rewrite (wq_mk nodes tg v0 (other u0 e0) (et e0) (em e1) kv0 ku1 y HS X3 X2 L2). ring. }
+    rewrite Htwo. ring.
+Qed.
+
+Lemma den_loop_ratio nodes tg u0 v0 : SymT nodes tg -> forall a0 a1 bot bot',
+  (forall e, In e a0 -> touches u0 e = true) -> (forall e, In e a1 -> touches v0 e = true) ->
+  den_loop nodes tg u0 v0 a0 a1 bot = DenOk bot' -> bot' == bot * prodw nodes tg (zipL a0 a1).
+Proof.
+  intros HS. induction a0 as [|e0 a0 IH]; intros a1 bot bot' T0 T1 H.
+  - cbn in H. injection H as <-. unfold zipL, prodw. cbn. ring.
+  - destruct a1 as [|e1 a1]; cbn in H.
+    + injection H as <-. unfold zipL, prodw. cbn. ring.
+    + destruct (exk nodes (et e0) u0) as [ku0|] eqn:X1; [|discriminate].
+      destruct (exk nodes (et e0) (other u0 e0)) as [ku1|] eqn:X2; [|discriminate].
+      destruct (exk nodes (et e1) v0) as [kv0|] eqn:X3; [|discriminate].
+      destruct (exk nodes (et e1) (other v0 e1)) as [kv1|] eqn:X4; [|discriminate].
+      destruct (tlookup tg (et e0) (ku0 ++ ku1)) as [x|] eqn:L1; [|discriminate].
+      destruct (tlookup tg (et e1) (kv0 ++ kv1)) as [y|] eqn:L2; [|discriminate].
+      apply IH in H; [|intros e He; apply T0; right; exact He|intros e He; apply T1; right; exact He].
+      rewrite H. unfold zipL. cbn [combine flat_map fst snd app]. fold (zipL a0 a1). rewrite !prodw_cons.
+      rewrite (wq_touch nodes tg u0 e0 ku0 ku1 x HS (T0 e0 (or_introl eq_refl)) X1 X2 L1).
+      rewrite (wq_touch nodes tg v0 e1 kv0 kv1 y HS (T1 e1 (or_introl eq_refl)) X3 X4 L2). ring.
+Qed.
+
+(* numerator = product of the target weights over the proposal edges, denominator = product over the
+   removed corner edges: the acceptance ratio top/bot is pi(g') / pi(g) *)
+Theorem swap_pre_ratio fixed nodes tg u0 v0 a0 a1 props top bot :
+  SymT nodes tg -> length a0 = length a1 ->
+  (forall e, In e a0 -> touches u0 e = true) -> (forall e, In e a1 -> touches v0 e = true) ->
+  swap_pre fixed nodes tg u0 v0 a0 a1 = PNeed props top bot ->
+  top == prodw nodes tg props /\ bot == prodw nodes tg (a0 ++ a1).
+Proof.
+  intros HS Hlen T0 T1. unfold swap_pre.
+  destruct (num_loop fixed nodes tg u0 v0 a1 a0 (rev a1) [] (1 # 1)) as [|c|pr tp] eqn:E; try discriminate.
+  destruct (den_loop nodes tg u0 v0 a0 a1 (1 # 1)) as [|c|bt] eqn:D; try discriminate.
+  destruct (Qeq_bool bt (0 # 1)); [discriminate|]. intros [= -> -> ->].
+  apply (num_loop_ratio fixed nodes tg u0 v0 a1 HS) in E. destruct E as [new [Hp Ht]]. cbn in Hp. subst new.
+  apply (den_loop_ratio nodes tg u0 v0 HS) in D; [|exact T0|exact T1]. split.
+  - rewrite Ht. ring.
+  - rewrite D. rewrite (prodw_perm nodes tg _ _ (zipL_perm a0 a1 Hlen)). ring.
+Qed.
+
+Corollary swap_pre_ratio_ok fixed nodes tg u0 v0 a0 a1 props top bot :
+  SymT nodes tg -> length a0 = length a1 ->
+  (forall e, In e a0 -> touches u0 e = true) -> (forall e, In e a1 -> touches v0 e = true) ->
+  swap_pre fixed nodes tg u0 v0 a0 a1 = PNeed props top bot ->
+  ratio_ok nodes tg (a0 ++ a1) props top bot = true.
+Proof.
+  intros HS Hl T0 T1 H. destruct (swap_pre_ratio _ _ _ _ _ _ _ _ _ _ HS Hl T0 T1 H) as [A B].
+  unfold ratio_ok. apply andb_true_iff. split; apply Qeq_bool_iff; assumption.
+Qed.
+
+(* pi(g') * bot == pi(g) * top for the graph after the swap: the Metropolis ratio of pi *)
+Theorem swap_ratio_pi N es u0 v0 m0 m1 a0 a1 fixed prs nodes tg top bot :
+  WF N es -> Permutation a0 (corner_edges es u0 m0) -> Permutation a1 (corner_edges es v0 m1) ->
+  SuitFacts es u0 v0 m0 m1 a0 a1 ->
+  top == prodw nodes tg (swap_props u0 v0 fixed prs) -> bot == prodw nodes tg (a0 ++ a1) ->
+  prodw nodes tg (swap_es' es u0 v0 m0 m1 fixed prs) * bot == prodw nodes tg es * top.
+Proof.
+  intros HW G0 G1 SF Ht Hb.
+  assert (X : Permutation es (a0 ++ a1 ++ swap_rest es u0 v0 m0 m1)) by (eapply es_split; eauto).
+  rewrite (prodw_perm nodes tg _ _ X). unfold swap_es'. rewrite app_assoc, !prodw_app, Ht, Hb, prodw_app. ring.
+Qed.
